@@ -204,10 +204,17 @@ pub fn gen_registry_world(tape: &mut Tape, cfg: &RegGenCfg) -> World {
           }
           2 => u.items.push(Item::new(Form::Default, "npm:chalk@5")),
           3 => {
-            // https URL into the registry (own package, other file)
+            // https URL into the registry: own package, this version or
+            // another one (which may or may not be published; a version
+            // string may be a prefix of another, 1.2.0 / 1.2.0-pre)
+            let ov = if tape.draw(Stream::World, 2) == 1 {
+              *tape.pick(Stream::World, &VERSION_POOL)
+            } else {
+              v
+            };
             u.items.push(Item::new(
               Form::SideEffect,
-              format!("{}{}/{}/mod.ts", REGISTRY, name, v),
+              format!("{}{}/{}/mod.ts", REGISTRY, name, ov),
             ));
           }
           _ => {}
@@ -366,6 +373,26 @@ pub fn gen_registry_world(tape: &mut Tape, cfg: &RegGenCfg) -> World {
         }
       }
       pkg.versions.insert(v.to_string(), pv);
+    }
+    if tape.draw(Stream::World, 8) == 7 && !pkg.versions.is_empty() {
+      // look-alike sibling versions: "1.2.0" is a string prefix of
+      // "1.2.0-pre"; the release imports a file of the pre-release by its
+      // https registry URL
+      let proto = pkg.versions.values().next().unwrap().clone();
+      for v in ["1.2.0", "1.2.0-pre"] {
+        pkg
+          .versions
+          .entry(v.to_string())
+          .or_insert_with(|| proto.clone());
+      }
+      let url = format!("{}{}/1.2.0-pre/mod.ts", REGISTRY, name);
+      if let Some(m) = pkg
+        .versions
+        .get_mut("1.2.0")
+        .and_then(|pv| pv.files.get_mut("/mod.ts"))
+      {
+        m.items.push(Item::new(Form::SideEffect, url));
+      }
     }
     if cfg.allow_stale_meta && tape.draw(Stream::World, 5) == 4 {
       // stale cached meta.json listing a subset of versions
